@@ -258,13 +258,16 @@ class Evaluate(Unit):
     def build(self, S):
         pp, txt = load(self.which)
         ents = text_entries(txt)
-        secs = [sec_of(t) for t in pp["tmid"]]
+        secs = [sec_of(t) for t in pp["tmid"]]                      # what the real parser produced (used by the code under test)
+        # what the text says, exactly: TMID is a decimal MJD (UTC; no leap second between the texts' dates and the epoch)
+        ep_mjd = Fraction(59277) + Fraction(5 * 3600 + 6 * 60 + 7, 86400)
+        secs_txt = sorted((e["tmid"] - ep_mjd) * 86400 for e in ents)
         lo = min(secs) - 7200 - 60 * max(e["span"] for e in ents)
         hi = max(secs) + 7200 + 60 * max(e["span"] for e in ents)
         t = S.real("t")
         S.assume(t > lo)
         S.assume(t < hi)
-        return {"pp": pp, "ents": sorted(ents, key=lambda e: e["tmid"]), "secs": secs, "t": t, "sym": S.symbolic}
+        return {"pp": pp, "ents": sorted(ents, key=lambda e: e["tmid"]), "secs": secs, "secs_txt": secs_txt, "t": t, "sym": S.symbolic}
 
     def call(self, a):
         pp = a["pp"]
@@ -291,7 +294,7 @@ class Evaluate(Unit):
         expanded exactly (rational coefficients), rescaled to y in [-1, 1] and decided as a single univariate polynomial inequality"""
         tvar = a["t"].e
         pol = poly_of(d, tvar)
-        s, hs = a["secs"][k], Fraction(30 * a["ents"][k]["span"]) + Fraction(1, 1000)
+        s, hs = a["secs_txt"][k], Fraction(30 * a["ents"][k]["span"]) + Fraction(1, 1000)
         if pol is None:
             return [(label + ":hi", z3.And(inside_any, d > tol)), (label + ":lo", z3.And(inside_any, -d > tol))]
         py = poly_compose_affine(pol, s, hs)
@@ -314,14 +317,19 @@ class Evaluate(Unit):
 
     def spec(self, S, a, out):
         t = rterm(a["t"]) if S.symbolic else RV(sec_of(EPOCH + a["t"] * u.s))      # (concrete: the time the Time object really holds)
-        ents, secs = a["ents"], a["secs"]
+        ents, secs = a["ents"], a["secs_txt"]
         ms = RV(Fraction(1, 1000))
         half = [RV(Fraction(30 * e["span"])) for e in ents]
-        sl = z3.RealVal(0) if S.symbolic else RV(Fraction(1, 10**5))        # concrete runs: Time rounding at the span edges
+        # the parsed mid times must be the text's (to well below 1e-8 cycles at any spin frequency: 1e-9 s)
+        tm_bad = len(a["secs"]) != len(secs) or any(abs(x - y) > Fraction(1, 10**9) for x, y in zip(sorted(a["secs"]), secs))
+        # slack at the span edges: 1e-9 s in exact arithmetic (the parsed mid times may differ from the text by that much),
+        # 1e-5 s in concrete runs (Time rounding)
+        sl = RV(Fraction(2, 10**9)) if S.symbolic else RV(Fraction(1, 10**5))
         inside_any = z3.Or([z3.And(t >= RV(s) - h + sl, t <= RV(s) + h - sl) for s, h in zip(secs, half)])
         if isinstance(out, Raised):
             # allowed only outside every span (beyond the 1 ms merging tolerance nothing may be refused inside a span)
-            return [("raises-only-outside-spans", inside_any), ("raises-ValueError", z3.BoolVal(out.cls is not ValueError))]
+            return [("parsed-TMID-equals-text", z3.BoolVal(tm_bad)), ("raises-only-outside-spans", inside_any),
+                    ("raises-ValueError", z3.BoolVal(out.cls is not ValueError))]
         # returned normally: the time must lie in the merged intervals = within a span, or in a gap of <= 1 ms between spans
         in_gap = z3.BoolVal(False)
         ss = sorted(zip(secs, [Fraction(30 * e["span"]) for e in ents]))
@@ -329,7 +337,7 @@ class Evaluate(Unit):
             if (s2 - h2) - (s1 + h1) <= Fraction(1, 1000):
                 in_gap = z3.Or(in_gap, z3.And(t >= RV(s1 + h1), t <= RV(s2 - h2)))
         near_any = z3.Or([z3.And(t >= RV(s) - h - sl, t <= RV(s) + h + sl) for s, h in zip(secs, half)])
-        checks = [("must-raise-outside-spans", z3.Not(z3.Or(near_any, in_gap)))]
+        checks = [("parsed-TMID-equals-text", z3.BoolVal(tm_bad)), ("must-raise-outside-spans", z3.Not(z3.Or(near_any, in_gap)))]
         tolp = RV(Fraction(1, 10**8))
         if self.what == "call":
             if not isinstance(out, P.Phase):
